@@ -6,3 +6,5 @@ from . import c_cdiffraction  # noqa
 from . import c_blobs  # noqa
 from . import c_connectedpixels  # noqa
 from . import c_sparse  # noqa
+from . import c_darkflat  # noqa
+from . import c_splat  # noqa
